@@ -462,6 +462,7 @@ func genC04(t *rapid.T, cfg *core.Config) *core.Case {
 	c.P["srckind"] = kind
 	g := core.NewGen(t, spec, rapid.IntRange(3, 25).Draw(t, "fuel"), map[string]bool{})
 	pr := &core.Printer{Parens: core.ParenMode(rapid.IntRange(0, 2).Draw(t, "parens")), Choose: func(n int, l string) int { return rapid.IntRange(0, n-1).Draw(t, l) }}
+	pr.Wild = rapid.IntRange(0, 3).Draw(t, "wild") == 0 // tabs, newlines, runs of blanks between tokens
 	switch kind {
 	case "typed":
 		x := g.ConstRootOr(rapid.Bool().Draw(t, "const"))
@@ -529,6 +530,13 @@ func genC04(t *rapid.T, cfg *core.Config) *core.Case {
 		x := build(rapid.IntRange(1, 3).Draw(t, "d"))
 		c04ClampRanges(x)
 		c.Source = pr.Print(x)
+	}
+	if rapid.IntRange(0, 5).Draw(t, "multiline") == 0 {
+		// the source continues after lines that hold multi-byte characters: wherever an error is found then, it is
+		// reported (and its snippet cut out) beyond the first line
+		head := rapid.SampledFrom([]string{"S == '東京都千代田区' ?\n", "'日本語' + 'éé' != BS ?\r\n\t", "Ss[0] == \"héllo wörld ünïcödé\" ?\n\n", "BS != '😀😀😀😀' ?\n"}).Draw(t, "mlhead")
+		c.Source = head + c.Source + "\n:\n" + c.Source
+		c.P["multiline"] = true
 	}
 	c.P["env"] = rapid.SampledFrom([]string{"none", "struct", "struct", "ptr", "map", "map", "typedmap", "nilmap"}).Draw(t, "env")
 	c.P["allow"] = rapid.IntRange(0, 3).Draw(t, "allow") == 0
